@@ -34,6 +34,23 @@ Proof.
   - destruct i as [|i]; cbn in *; [discriminate|]. apply IH; assumption.
 Qed.
 
+Lemma firstn_remove_at_ge {A} (l : list A) n k : (n <= k)%nat -> firstn n (remove_at l k) = firstn n l.
+Proof.
+  revert n k. induction l as [|h t IH]; intros n k H; [destruct k; reflexivity|].
+  destruct k as [|k]; [assert (n = O) by lia; subst; reflexivity|].
+  destruct n as [|n]; [reflexivity|]. cbn. rewrite IH by lia. reflexivity.
+Qed.
+
+Lemma a_find_reuse_skipn x l n i :
+  a_find_reuse x (skipn n l) O = Some i -> nth_error l (n + i) = Some (UPend x).
+Proof.
+  intros H. destruct (a_find_reuse_some _ _ _ _ H) as [_ H1]. replace (i - 0)%nat with i in H1 by lia. clear H.
+  revert l H1. induction n as [|n IH]; intros l H1; [exact H1|]. destruct l as [|h t]; [destruct i; discriminate|]. apply IH. exact H1.
+Qed.
+
+Lemma in_firstn_skipn {A} (l : list A) n x : In x l -> In x (firstn n l) \/ In x (skipn n l).
+Proof. intros H. rewrite <- (firstn_skipn n l) in H. apply in_app_iff in H. exact H. Qed.
+
 (* ---- the target frame of a declaration ------------------------------------------------------------------ *)
 Definition decl_frame (T : frame) (decl x : Z) : frame :=
   match a_find_decl T x with
@@ -122,18 +139,20 @@ Lemma decl_frame_ok T prT below decl x :
 Proof.
   intros [K1 K2 K3 K4 K5 K6 K7 K8] Hp Hk Harg.
   unfold decl_frame. destruct (a_find_decl T x) as [[y kk]|] eqn:E; [constructor; assumption|].
-  pose proof (a_find_decl_none _ _ E) as Hnot.
-  rewrite K7. cbn [skipn Nat.add].
+  pose proof (a_find_decl_none _ _ E) as Hnot. destruct K7 as [K7a K7b].
   assert (Hcases :
-    (exists i, (if decl =? ArgumentDecl then None else a_find_reuse x (fund T) 0) = Some i /\
-               nth_error (fund T) i = Some (UPend x))
-    \/ ((if decl =? ArgumentDecl then None else a_find_reuse x (fund T) 0) = None /\ ~ In (UPend x) (fund T))).
+    (exists i, (if decl =? ArgumentDecl then None else a_find_reuse x (skipn (fnarg T) (fund T)) 0) = Some i /\
+               nth_error (fund T) (fnarg T + i) = Some (UPend x))
+    \/ ((if decl =? ArgumentDecl then None else a_find_reuse x (skipn (fnarg T) (fund T)) 0) = None /\ ~ In (UPend x) (fund T))).
   { destruct (Z.eqb_spec decl ArgumentDecl) as [Ea|Ea]; [right; split; [reflexivity|apply Harg; exact Ea]|].
-    destruct (a_find_reuse x (fund T) 0) as [i|] eqn:Er.
-    - left. exists i. split; [reflexivity|]. destruct (a_find_reuse_some _ _ _ _ Er) as [_ H]. replace (i - 0)%nat with i in H by lia. exact H.
-    - right. split; [reflexivity|]. eapply a_find_reuse_none. exact Er. }
+    destruct (a_find_reuse x (skipn (fnarg T) (fund T)) 0) as [i|] eqn:Er.
+    - left. exists i. split; [reflexivity|]. apply a_find_reuse_skipn. exact Er.
+    - right. split; [reflexivity|]. intros Hin. destruct (in_firstn_skipn _ (fnarg T) _ Hin) as [H|H].
+      + apply (K7b x H). exact Hp.
+      + apply (a_find_reuse_none _ _ _ Er). exact H. }
   destruct Hcases as [(i & -> & Hnth)|[-> Hnone]].
   - destruct (pend_names_remove_at _ _ _ Hnth K6) as [Hnd Hnx].
+    assert (Hlt : (fnarg T + i < length (fund T))%nat) by (apply nth_error_Some; rewrite Hnth; discriminate).
     constructor; cbn [fdecl fund fnarg fid fisfunc set_fdecl set_fund].
     + intros y k Hy. apply in_app_last in Hy. destruct Hy as [Hy|Hy]; [apply K1; exact Hy|]. inversion Hy; subst. split; assumption.
     + exact K2.
@@ -145,7 +164,9 @@ Proof.
       apply (pass_ok_shape y fs ((T, prT) :: below)); [reflexivity|exact H2].
     + unfold dnames. cbn [fdecl set_fdecl set_fund]. rewrite map_app. cbn [map fst]. apply nodup_app_last; assumption.
     + exact Hnd.
-    + exact K7.
+    + split.
+      * pose proof (length_remove_at (fund T) (fnarg T + i) Hlt). lia.
+      * rewrite firstn_remove_at_ge by lia. exact K7b.
     + exact K8.
   - constructor; cbn [fdecl fund fnarg fid fisfunc set_fdecl set_fund].
     + intros y k Hy. apply in_app_last in Hy. destruct Hy as [Hy|Hy]; [apply K1; exact Hy|]. inversion Hy; subst. split; assumption.
@@ -156,7 +177,7 @@ Proof.
       apply (pass_ok_shape y fs ((T, prT) :: below)); [reflexivity|exact H2].
     + unfold dnames. cbn [fdecl set_fdecl set_fund]. rewrite map_app. cbn [map fst]. apply nodup_app_last; assumption.
     + exact K6.
-    + exact K7.
+    + split; assumption.
     + exact K8.
 Qed.
 
@@ -177,13 +198,12 @@ Lemma decl_log_pend T prT below decl x log s y :
   In (LPend s y) log /\ (s = fid T -> In (UPend y) (fund T) -> In (UPend y) (fund (decl_frame T decl x))).
 Proof.
   intros K. unfold decl_log, decl_frame. destruct (a_find_decl T x) as [[z k]|] eqn:E; [tauto|].
-  rewrite (K_narg _ _ _ K). cbn [skipn Nat.add].
-  destruct (if decl =? ArgumentDecl then None else a_find_reuse x (fund T) 0) as [i|] eqn:Er.
+  destruct (if decl =? ArgumentDecl then None else a_find_reuse x (skipn (fnarg T) (fund T)) 0) as [i|] eqn:Er.
   - intros Hin. unfold relabel in Hin. apply in_map_iff in Hin. destruct Hin as (l & El & Hl).
     destruct (label_eqb l (LPend (fid T) x)) eqn:Eq; [discriminate|]. subst l. split; [exact Hl|].
     intros -> Hu. cbn [fund set_fdecl set_fund]. apply in_remove_at; [|exact Hu].
     destruct (Z.eqb decl ArgumentDecl); [discriminate|].
-    destruct (a_find_reuse_some _ _ _ _ Er) as [_ H]. replace (i - 0)%nat with i in H by lia. rewrite H.
+    rewrite (a_find_reuse_skipn _ _ _ _ Er).
     intros Ex. inversion Ex; subst. rewrite label_eqb_refl in Eq. discriminate.
   - intros Hin. split; [exact Hin|]. intros _ Hu. exact Hu.
 Qed.
